@@ -210,9 +210,18 @@ pub fn verify_dir<H: HK>(
             expected = next;
         }
     }
+    let util = db.nomt.hash_table_utilization();
     db.close().map_err(|f| format!("{what}: closing the recovered store: {}", f.sig()))?;
     // C16 on recovered images: the files decode to exactly the expected state
-    hist::decode_check::<H>(dir, &expected).map_err(|m| format!("{what}: after recovery{} {m}", if deep >= 2 { " and one more operation" } else { "" }))?;
+    let d = hist::decode_check::<H>(dir, &expected).map_err(|m| format!("{what}: after recovery{} {m}", if deep >= 2 { " and one more operation" } else { "" }))?;
+    // C19 on recovered handles: reported utilisation is the number of FULL buckets on disk; nothing leaked
+    if util.occupied != d.ht_full {
+        return Err(format!(
+            "{what}: the recovered handle reports hash_table_utilization().occupied = {} but {} buckets are marked full on disk",
+            util.occupied, d.ht_full
+        ));
+    }
+    crate::decode::check_partition(&d).map_err(|m| format!("{what}: allocation after recovery: {m}"))?;
     Ok(which)
 }
 
@@ -274,6 +283,10 @@ fn enumerate(cp: &Shadow, tr: &[Ev], mode: Mode, seed: u64, returned_ok: bool, r
     let mut out = Vec::new();
     let mut seen: BTreeSet<u64> = BTreeSet::new();
     let mut s = cp.clone();
+    // second shadow with the POSIX-strict directory model (a creation is durable only through a
+    // directory fsync): used for one extra fault class of power-loss images
+    let mut st = cp.clone();
+    st.strict_dir = true;
     let mut rng = SplitMix(seed);
     for b in 0..=tr.len() {
         let desc = describe_boundary(tr, b);
@@ -337,10 +350,21 @@ fn enumerate(cp: &Shadow, tr: &[Ev], mode: Mode, seed: u64, returned_ok: bool, r
                         push(img, format!("power loss {desc} ({pd})"), info);
                     }
                 }
+                // directory-entry fault class: creations / unlinks not covered by a completed fsync of the
+                // DIRECTORY are lost (even if the file itself was fsynced), everything else kept / lost
+                if st.dir_pending.len() > s.dir_pending.len() {
+                    for (m, c, pd) in [(2u8, "dir", "file contents kept, but directory entries not covered by a directory fsync lost"), (0u8, "", "all volatile writes and directory entries not covered by a directory fsync lost")] {
+                        let mut p = PowerPolicy { mode: m, class: c, rng: SplitMix(rng.next()) };
+                        let img = st.image(&mut p);
+                        info.bump("images_strict_directory_model");
+                        push(img, format!("power loss {desc} ({pd})"), info);
+                    }
+                }
             }
         }
         if b < tr.len() {
             s.apply(&tr[b]);
+            st.apply(&tr[b]);
         }
     }
     Enumerated { images: out }
